@@ -33,7 +33,9 @@ def run(R):
         R.ob("C04-R1", "private:" + f["name"], "field `%s` is private to its module (type-enforced writer set)" % f["name"],
              not f["pub"], where=adt["file"])
 
-    touches = W.field_touches(prog, DI, IDX + [CAT])
+    # unit tests inside the owner module may poke private fields to build legacy states; they are not shipped code
+    touches = [t for t in W.field_touches(prog, DI, IDX + [CAT])
+               if "::tests::" not in t.body.key and not t.body.unit.endswith("__test")]
     for t in touches:
         R.saw(t.body)
     writers = {}
